@@ -16,6 +16,21 @@ def gen_plan(rng, opts=None):
     o.update(opts or {})
     nh = rng.randint(2, 3)
     hosts = [f"h{i}" for i in range(nh)]
+    if o.get("burst"):
+        # far more commands / payloads than one receive round usually sees, queued at one data server while it is descheduled
+        nds = rng.randint(34, 60)
+        dss = [f"t{i}.0" for i in range(nds)]
+        home = {d: "h0" for d in dss}
+        sizes = {d: rng.choice([1, 7, 100]) for d in dss}
+        cmds = [["stall", rng.choice(["h0", "h1"]), "data", rng.choice([300, 900, 2000]), 0]]
+        for d in dss:
+            cmds.append(["tx", d, "h1", 0])
+        for d in rng.sample(dss, rng.randint(32, nds)):
+            cmds.append(["tx", d, hosts[-1], 0])
+        net = dict(lat_lo=50_000, lat_hi=rng.choice([200_000, 5_000_000]), drop=0, dup=0, max_consec=None)
+        if o["lossy"]:
+            net.update(drop=rng.choice([0, 10]), dup=rng.choice([0, 10]), max_consec=2)
+        return dict(hosts=hosts, dss=dss, home=home, sizes=sizes, cmds=cmds, net=net)
     nds = rng.randint(1, 5)
     dss = [f"t{i}.0" for i in range(nds)]
     home = {d: rng.choice(hosts) for d in dss}
@@ -203,6 +218,9 @@ def run(plan, ch, want_log=False):
 
         for c in plan["cmds"]:
             pump(0, c[-1])
+            if c[0] == "stall":
+                K.stall(procs[c[1] + "." + c[2]], c[3] * 1_000_000)
+                continue
             if c[0] in ("tx", "tx_purge", "tx_stall"):
                 r, tgt = c[1], c[2]
                 srcs = [h for h in hosts if r in holds[h] and r not in purged[h] and h != tgt]
@@ -250,7 +268,7 @@ def run(plan, ch, want_log=False):
         ph = SimProc(K, h, root, toplevel=True)
         ph.env["CASCADE_SHM_PORT"] = str(port[h])
         procs[h + ".shm"] = SimProc(K, h + ".shm", ph).start(lambda h=h: shm(h))
-        SimProc(K, h + ".data", ph).start(lambda h=h: start_data_server(maddr[h], daddr[h], h, port[h], {"version": 1}))
+        procs[h + ".data"] = SimProc(K, h + ".data", ph).start(lambda h=h: start_data_server(maddr[h], daddr[h], h, port[h], {"version": 1}))
         ph.start(lambda h=h: stub_executor(h))
         hp[h] = ph
     pc = SimProc(K, "ctrl", root, toplevel=True).start(controller)
